@@ -321,6 +321,23 @@ Definition m_snapshot (s : iset) : res ret :=
   | _, _, Raise e => Raise e
   end.
 
+(* collections.abc.Set.__le__/__lt__/__ge__/__gt__ (the other side is a Set) and IndexedSet.__eq__ *)
+Definition m_le (s : iset) (o : operand) : bool :=
+  if length (o_elems o) <? m_len s then false                       (* len(self) > len(other) *)
+  else forallb (fun k => opd_mem k o) (m_live s).
+Definition m_ge (s : iset) (o : operand) : bool :=
+  if m_len s <? length (o_elems o) then false                       (* len(self) < len(other) *)
+  else forallb (m_contains s) (o_elems o).
+Definition m_cmp (s : iset) (k : cmpop) (o : operand) : bool :=
+  match k with
+  | CEq => eq_self s o
+  | CNe => negb (eq_self s o)
+  | CLe => m_le s o
+  | CLt => (m_len s <? length (o_elems o)) && m_le s o
+  | CGe => m_ge s o
+  | CGt => (length (o_elems o) <? m_len s) && m_ge s o
+  end.
+
 Definition m_step1 (c : cfg) (s : iset) (o : op) : iset * res ret :=
   match o with
   | Add x => (m_add s x, Ok RNone)
@@ -354,6 +371,7 @@ Definition m_step1 (c : cfg) (s : iset) (o : op) : iset * res ret :=
   | Reversed => (s, Ok (RList (rev (m_live s))))
   | Snapshot => (s, m_snapshot s)
   | SelfOp _ => (s, Raise NotModelled)
+  | Cmp k o => (s, Ok (RBool (m_cmp s k o)))
   end.
 
 (* Calls whose operand is the set itself.  Every method except symmetric_difference_update reads the
